@@ -421,7 +421,12 @@ func (el *EventList) compress() *compressedEventList {
 	return &c
 }
 
-func (el *EventList) uncompress(c *compressedEventList) {
+func (el *EventList) uncompress(c *compressedEventList) error {
+	for _, e := range c.E {
+		if e == nil {
+			return errors.New("event list contains an empty revocation attribute")
+		}
+	}
 	if len(c.E) != 0 {
 		el.Events = make([]*Event, len(c.E))
 	}
@@ -446,6 +451,7 @@ func (el *EventList) uncompress(c *compressedEventList) {
 	// The indices and hashes of events that come from a compressed event are always valid
 	// since we just computed them ourselves
 	el.verified = true
+	return nil
 }
 
 func (el *EventList) MarshalJSON() ([]byte, error) {
@@ -458,8 +464,7 @@ func (el *EventList) UnmarshalJSON(bts []byte) error {
 	if err != nil {
 		return err
 	}
-	el.uncompress(&c)
-	return nil
+	return el.uncompress(&c)
 }
 
 func (el *EventList) MarshalCBOR() ([]byte, error) {
@@ -472,8 +477,7 @@ func (el *EventList) UnmarshalCBOR(bts []byte) error {
 	if err != nil {
 		return err
 	}
-	el.uncompress(&c)
-	return nil
+	return el.uncompress(&c)
 }
 
 func (el *EventList) Verify(acc *Accumulator) error {
